@@ -134,9 +134,8 @@ Definition line_links (l : list inline) : list string := flat_map inline_links l
 Record lblock := LB {
   lb_note : string;
   lb_lr : lrange;
-  lb_keys : list string;        (* what its note links resolve to, per the property text:
+  lb_keys : list string         (* what its note links resolve to, per the property text:
                                    relative to the note's directory, `.md` ignored, no external urls *)
-  lb_raw : list string          (* the same links read without the directory (what class 1 is about) *)
 }.
 
 Definition resolved_keys (dir : string) (urls : list string) : list string :=
@@ -148,8 +147,7 @@ Section Scan.
   Definition entry (lr : lrange) (l : list inline) (blockref : bool) : list lblock :=
     match line_links l with
     | [] => []
-    | urls => [LB note lr (resolved_keys dir urls)
-                 (if blockref then resolved_keys dir urls else map key_from_file_name (filter is_ref_url urls))]
+    | urls => [LB note lr (resolved_keys dir urls)]
     end.
 
   (* [secpos]: the block is the first one of a list item (a paragraph there is the item's
@@ -205,31 +203,31 @@ Definition exact_for (sc : list lblock) (io : iobs) (k : string) : bool :=
   | None => false
   end.
 
-(* the same demand restricted to what no known class touches: every linking block whose
-   links read the same with and without the directory [and not in `shadow`] is reported -
+(* the same demand restricted to what no known class touches: every linking block
+   [not in `shadow`] is reported - inline links are keyed from the linking note's directory like
+   block references since the repair of F-C05-inline-dir, the former class 1 -
    inside block quotes too, at the block's own lines (the former class 3, F-C05-quote-line, was
    repaired in SectionsBuilder: the nested builder's line map is kept) -; and whatever is
-   reported is a linking block under one of the two readings *)
+   reported is a linking block *)
 Definition residual_for (sc : list lblock) (shadow : list (string * lrange)) (io : iobs) (k : string) : bool :=
   match obs_places io k with
   | None => false
   | Some o =>
-      forallb (fun b => implb (inb k (lb_keys b) && inb k (lb_raw b) &&
+      forallb (fun b => implb (inb k (lb_keys b) &&
                                negb (existsb (loc_eqb (lb_note b, lb_lr b)) shadow))
                               (existsb (loc_eqb (lb_note b, lb_lr b)) o)) sc &&
       forallb (fun p => existsb (fun b => String.eqb (lb_note b) (fst p) &&
                                           lrange_eqb (lb_lr b) (snd p) &&
-                                          (inb k (lb_keys b) || inb k (lb_raw b))) sc) o
+                                          inb k (lb_keys b)) sc) o
   end.
 
 Definition note_keys (c : libcase) : list string := map (fun n => key_name (ni_name n)) (lc_notes c).
 
 (* ---- known classes (decidable classifiers over the input) ---- *)
 
-(* class 1 (F9): an inline note link whose key read without the linking note's directory
-   differs from its resolved key *)
-Definition cls_inline_raw (sc : list lblock) : bool :=
-  existsb (fun b => negb (list_eqb String.eqb (lb_keys b) (lb_raw b))) sc.
+(* (formerly class 1, F-C05-inline-dir / F9: an inline note link whose key read without the linking
+   note's directory differs from its resolved key.  Repaired: `to_graph_inline` keeps the key the link
+   names from the note's directory; the class no longer exists, a failure there is a VIOLATION.) *)
 
 (* (formerly class 3, F-C05-quote-line: a note link inside a block quote, whose node had no line
    range.  Repaired in the builder; the class no longer exists, a failure there is a VIOLATION.) *)
@@ -301,7 +299,6 @@ Definition c05_props (tbl : bool) (c : c05case) : list N * list N :=
                                    end) ups in
       let shadow_links := existsb (fun us => existsb (has_link_at sc) (snd us)) ups in
       let classes :=
-        (if cls_inline_raw sc then [1%N] else []) ++
         (if negb tbl && shadow_links then [2%N] else []) in
       (flag 1 p1 ++ flag 2 p2 ++ flag 3 (r1 && r2),
        (* a failure of the restricted demand is explained by no class *)
